@@ -154,3 +154,80 @@ package eddsa
 //@ ensures[secret-parts] isnil(result1) ==> forall(j, 0, sizeFr, privKey.scalar[j] == buf[sizeFr + j]) && forall(j, 0, 32, privKey.randSrc[j] == buf[2*sizeFr + j])
 //@ modifies privKey
 //@ end
+
+// Sign. What the signer computes, with the nonce derivation, the hash and the point operations opaque: the commitment
+// R is blind * Base with blind the integer read from the first sizeFr bytes of the BLAKE2b-512 digest (an opaque
+// call), and R passed the on-curve test; H(R, A, M) is computed over exactly the encodings of R.X, R.Y, A.X, A.Y
+// and the message, in this order, after a Reset (checked before every Write); the digest taken after these five
+// writes is the integer hram; the secret scalar is read from privKey.scalar; and the value reduced into the signature
+// is (hram * scalar + blind) mod Order. How that value and R are laid out in the returned bytes (padding, Bytes of
+// the signature) is not stated here: the decoder side is (Signature.SetBytes). The order of the curve enters through
+// an assumed contract of GetEdwardsCurve (a positive integer).
+
+//@ func twistededwards.GetEdwardsCurve
+//@ layer bigint big.Int ring fr.Element
+//@ assumed the curve parameters are package-level constants initialised once: the order of the prime-order subgroup is a positive integer
+//@ ensures result.Order > 0
+//@ end
+
+//@ func PrivateKey.Sign
+//@ layer bigint big.Int ring fr.Element
+//@ option field fr
+//@ option nomerge
+//@ option opaque-calls
+//@ ghost blind = 0
+//@ ghost blindok = false
+//@ ghost c1 = false
+//@ ghost rok = false
+//@ ghost hreset = false
+//@ ghost nw = 0
+//@ ghost b1 = false
+//@ ghost b2 = false
+//@ ghost b3 = false
+//@ ghost b4 = false
+//@ ghost hsum = false
+//@ ghost hram = 0
+//@ ghost sc = 0
+//@ ghost scok = false
+//@ ghost sval = 0
+//@ ghost sdone = false
+//@ cut after call SetBytes #1
+//@ + ghost blind = *callarg0
+//@ + ghost blindok = called(Sum512) && len(callarg1) == sizeFr
+//@ cut after call ScalarMultiplication #1
+//@ + ghost c1 = same(callarg0, &res.R) && same(callarg1, &curveParams.Base) && *callarg2 == blind
+//@ cut after call IsOnCurve #1
+//@ + ghost rok = callresult && same(callarg0, &res.R)
+//@ cut after call Reset #1
+//@ + ghost hreset = true
+//@ cut after call Bytes #1
+//@ + ghost b1 = same(callarg0, &res.R.X)
+//@ cut after call Bytes #2
+//@ + ghost b2 = same(callarg0, &res.R.Y)
+//@ cut after call Bytes #3
+//@ + ghost b3 = same(callarg0, &privKey.PublicKey.A.X)
+//@ cut after call Bytes #4
+//@ + ghost b4 = same(callarg0, &privKey.PublicKey.A.Y)
+//@ cut before call Write #*
+//@ + invariant[hash-input] hreset && b1 && b2 && b3 && b4 && (nw == 0 ==> same(callarg1, viewof(resRX))) && (nw == 1 ==> same(callarg1, viewof(resRY))) && (nw == 2 ==> same(callarg1, viewof(resAX))) && (nw == 3 ==> same(callarg1, viewof(resAY))) && (nw == 4 ==> same(callarg1, message)) && nw <= 4
+//@ cut after call Write #*
+//@ + ghost nw = nw + 1
+//@ cut before call Sum #1
+//@ + invariant[hash-complete] nw == 5 && isnil(callarg1)
+//@ cut after call Sum #1
+//@ + ghost hsum = true
+//@ cut after call SetBytes #2
+//@ + ghost hram = *callarg0
+//@ + invariant[hram-is-the-digest] hsum && same(callarg1, resultof_Sum)
+//@ cut after call SetBytes #3
+//@ + ghost sc = *callarg0
+//@ + ghost scok = same(callarg1, viewof(privKey.scalar))
+//@ cut after call Mod #1
+//@ + ghost sval = *callarg0
+//@ + ghost sdone = true
+//@ + invariant[s-value] *callarg0 == bigmod(hram*sc + blind, curveParams.Order)
+//@ ensures[hash-needed] isnil(hFunc) ==> isnil(result0) && result1 == errHashNeeded
+//@ ensures[commitment] isnil(result1) ==> blindok && c1 && rok
+//@ ensures[scalar] isnil(result1) ==> scok && sdone
+//@ modifies nothing
+//@ end
